@@ -99,6 +99,7 @@ type pathState struct {
 	vars   []*Term // nondet variables in creation order
 	varTag []string
 	choices []uint64
+	unchecked bool
 	nchoice int
 	reach  map[string]bool
 	checks int
